@@ -46,6 +46,11 @@ class Command(SerializableMixin, DictableMixin):
         self.argument = match.group(2).decode('utf-8', errors='surrogateescape')
 
     def to_bytes(self):
+        if re.search(r'[\r\n]', '{0}{1}'.format(self.name, self.argument)):
+            # A line break (e.g. percent-encoded in the URL) would smuggle
+            # additional commands to the server.
+            raise ProtocolError('Command must not contain line breaks.')
+
         return '{0} {1}\r\n'.format(self.name, self.argument).encode(
             'utf-8', errors='surrogateescape')
 
